@@ -47,7 +47,7 @@ check("C06", "model_checking",
       "joblib is modelled by ControlledParallel (submission-order results, chosen execution order, inline or pickled arguments) and bound to the implementation by the real-pool conformance runs; wall-clock timeouts excluded here (C11).",
       "stateless deviation-bounded schedule exploration over owned choice points + bounded-exhaustive sub-batch enumeration, differential oracle vs alone-run", "DESIGN.md 4/C06")
 check("C10", "model_checking",
-      "(i) every result table of 3 search conditions x 1 reaction over 9 entry shapes and x 2 reactions over 6 shapes (thorough: 9 shapes = 531k tables, and 3-reaction tables over 4 shapes) through ExtractMCS.get_largest_condition against an argmax reference (identity, id, order, maximality of every retained entry); (ii) MCSSearch.find observed inside real rebalance runs for every ordered sub-batch of size 1..2 + covering triples (thorough: all triples, complete corpus) of 10 MCS-bound and 2 solved reactions: molecule list = multiset of the carbon-richer side, one pattern per molecule, each pattern contained in its molecule, record id = row id, record = alone-run record; plus every single (thorough: double) task-order deviation at the stage's Parallel calls for 3 batches.",
+      "(i) every result table of 3 search conditions x 1 reaction over 10 entry shapes and x 2 reactions over 7 shapes (thorough: 10 shapes = 1M tables, and 3-reaction tables over 4 shapes) through ExtractMCS.get_largest_condition against an argmax reference (identity, id, order, maximality of every retained entry); (ii) MCSSearch.find observed inside real rebalance runs for every ordered sub-batch of size 1..2 + covering triples (thorough: all triples, complete corpus) of 10 MCS-bound and 2 solved reactions: molecule list = multiset of the carbon-richer side, one pattern per molecule, each pattern contained in its molecule, record id = row id, record = alone-run record; plus every single (thorough: double) task-order deviation at the stage's Parallel calls for 3 batches.",
       "'The reaction sent to the MCS stage' = the rows handed to MCSSearch.find by the real pipeline; containment decided by RDKit's matcher; scheduler modelled by ControlledParallel (bound by C06's conformance runs).",
       "exhaustive table enumeration vs argmax reference + deviation-bounded schedule exploration over owned choice points", "DESIGN.md 4/C10")
 check("C09", "exploration",
